@@ -300,13 +300,14 @@ func c16Case(cs *Case, auto bool) {
 	}
 	os.RemoveAll(refDir)
 	// sometimes the target exists already (replace)
-	dirInTheWay := false
+	dirInTheWay, dirNotEmpty := false, false
 	if chance(r, 8) && !strings.HasPrefix(lastShape, "missing") {
 		// a directory sits under the very name (empty, or with something in it): the write
 		// cannot succeed, and a write that fails leaves nothing behind either
 		must(os.Mkdir(expected, 0o755))
-		if chance(r, 50) {
+		if chance(r, 60) {
 			must(os.WriteFile(filepath.Join(expected, "inside.txt"), []byte("x"), 0o644))
+			dirNotEmpty = true
 		}
 		dirInTheWay = true
 		c.Count("writes_with_a_directory_under_the_name", 1)
@@ -414,6 +415,18 @@ func c16Case(cs *Case, auto bool) {
 		c.Count("failed_writes_checked_for_leftovers", 1)
 		if a, rm, ch := snapDiff(before, treeSnapshot(root)); len(a)+len(rm)+len(ch) > 0 {
 			cs.Violation("write-touches-other", map[string]string{"failed_write": "true"}, fmt.Sprintf("WriteSpec(%q) failed (%v: a directory has that name) and still changed the tree: added %v removed %v changed %v", wname, werr, a, rm, ch), wit)
+		}
+		// removing by that name is not a licence to remove a directory and what is in it
+		// (asked only while the directory holds something: an empty directory under the name
+		// is removed like a file would be, which the statement does not rule out)
+		var rerr error
+		if dirNotEmpty {
+			rerr = cache.RemoveSpec(wname)
+			c.Count("removals_by_a_name_that_is_a_non_empty_directory", 1)
+		}
+		if a, rm, ch := snapDiff(before, treeSnapshot(root)); len(a)+len(rm)+len(ch) > 0 {
+			cs.Violation("remove-touches-other", map[string]string{"failed_write": "true"}, fmt.Sprintf("RemoveSpec(%q) (err=%v) while a directory has that name changed the tree: added %v removed %v changed %v", wname, rerr, a, rm, ch), wit)
+			return
 		}
 		// and once more: failures do not add up
 		werr2 := cache.WriteSpec(cloneSpec(spec), wname)
